@@ -2,17 +2,21 @@
 (* The machine of FileOps explored by TLC: every fault class x every strike offset; FileAllOrError as an invariant;
    every complete behaviour exported for replay against the real to_file (GEN). *)
 EXTENDS FileRun, TLC, Json
-VARIABLES fs, fault, off, hist
-vars == <<fs, fault, off, hist>>
+VARIABLES fs, fault, off, hist,
+          pre      \* what is at the path before the call: nothing, a shorter file, a longer file (File::create truncates)
+vars == <<fs, fault, off, hist, pre>>
+PreStates == {"absent", "shorter", "longer"}
 Init == /\ fs = F_Init /\ hist = <<>>
         /\ fault \in Classes
         /\ off \in 0..L
         /\ (fault \notin WriteFaults => off = 0)          \* the offset only matters for write-time classes
         /\ (fault = "ENOSPC" => off = 0)                  \* a full device refuses the first byte
+        /\ pre \in PreStates
+        /\ (fault \notin {"none", "EFBIG"} => pre = "absent")   \* only a regular target can hold an earlier file
 Next == /\ fs.phase # "done"
         /\ fs' = F_Step(fs, fault, off)
         /\ hist' = Append(hist, fs'.phase)
-        /\ UNCHANGED <<fault, off>>
+        /\ UNCHANGED <<fault, off, pre>>
 Spec == Init /\ [][Next]_vars
 FileAllOrError == fs.phase = "done" =>
                     /\ (fs.ret = "Ok" => fs.written = L)              \* Ok only with the complete file
@@ -20,5 +24,5 @@ FileAllOrError == fs.phase = "done" =>
                     /\ (~Struck(fault, off) => fs.ret = "Ok")          \* and nothing else is
                     /\ fs = F_Run(fault, off)
 Terminates == <>(fs.phase = "done")
-Replay == fs.phase = "done" => PrintT(<<"REPLAY", ToJson([fault |-> fault, off |-> off, hist |-> hist, ret |-> fs.ret, file |-> FileClass(fs), k |-> fs.written])>>)
+Replay == fs.phase = "done" => PrintT(<<"REPLAY", ToJson([fault |-> fault, off |-> off, pre |-> pre, hist |-> hist, ret |-> fs.ret, file |-> FileClass(fs), k |-> fs.written])>>)
 =============================================================================
